@@ -19,6 +19,7 @@ RENDERINGS = [
     ('a\nb', ['a', '\nb']),
     ('a\n\nb', ['a\n', '\n', 'b']),
     ('xy', ['x', '', 'y']),
+    ('a\r\nb', ['a\r\nb']),
 ]
 
 
@@ -39,12 +40,11 @@ def reference(shape, texts, x):
     return '\n'.join(lines + rec(x, ''))
 
 
-def run_pretty_job(prog, job):
-    t0 = time.time()
+def explore_pretty(prog, job):
+    """symbolic forest, start node, rendering choice, alternate flag; runs <DebugPrettyPrint as trait>::fmt on every path"""
     N, trait = job['N'], job['trait']
     RS = [RENDERINGS[i] for i in job.get('rset', range(len(RENDERINGS)))]
     nr = len(RS)
-    prefixes = tuple(p + '.' for p in job['props'])
     fmtmodel.install()
     eng = Engine(prog, max_steps=400000)
     A = SymArena(N)
@@ -59,9 +59,7 @@ def run_pretty_job(prog, job):
     eng.solver.add(z3.UGE(x, 1), z3.ULE(x, N), sel(live, x))
     alt = z3.Bool('alternate')
     if job.get('alt') is not None: eng.solver.add(alt == bool(job['alt']))
-    res = new_result(job)
-    if eng.solver.check() != z3.sat:
-        res['vacuous'] = True; return res
+    if eng.solver.check() != z3.sat: return None
     st = State(); acell = st.new_cell(A.value())
     idcell = st.new_cell(A.id_of(x))
     dpp = st.new_cell(Agg('DebugPrettyPrint', (Ref(idcell, ()), Ref(acell, ()))))
@@ -70,6 +68,19 @@ def run_pretty_job(prog, job):
     if not f: raise Unsupported('no <DebugPrettyPrint as %s>::fmt' % trait)
     eng.push_call(st, f[0], [Ref(dpp, ()), Ref(fcell, ())], None, None)
     outs = eng.run(st)
+    return eng, A, x, alt, rsel, RS, outs
+
+
+def run_pretty_job(prog, job):
+    t0 = time.time()
+    N, trait = job['N'], job['trait']
+    prefixes = tuple(p + '.' for p in job['props'])
+    res = new_result(job)
+    ex = explore_pretty(prog, job)
+    if ex is None:
+        res['vacuous'] = True; return res
+    eng, A, x, alt, rsel, RS, outs = ex
+    nr = len(RS)
     sv = eng.solver
     pre = View(A.value())
     res['paths'] = len(outs)
@@ -202,7 +213,7 @@ def confirm(prop, v):
         n0 = len(lines)
         for n, t in texts.items():
             chunks = a.get('chunks', [[x] for x in a['texts']])[n - 1]
-            lines.append('render %d %s' % (n - 1, '|~|'.join(c.replace('\n', '\\n') for c in chunks)))
+            lines.append('render %d %s' % (n - 1, '|~|'.join(c.replace('\n', '\\n').replace('\r', '\\r') for c in chunks)))
         lines.append('pretty %s s%d' % (mode, a['x']))
         res = replay.run_script(lines, profile)
         d = res.get(n0 - 1)
